@@ -90,6 +90,33 @@ def padding_switch(ctx, cq):
     ctx.floor("feasible hybrid paths of %s.assemble" % cls.name, 2, n)
 
 
+def entry_order(ctx, cname, fact):
+    """The v1 entries are appended in the order the traversal visits files; the tree's leaf order is its key order as
+    written.  Entered once on the root, the recursive traversal visits files in level-by-level sorted order, which is also
+    what any later (deep) key sort of the tree produces.  Driven file by file from a flat listing sorted by full path, the
+    two orders agree only as long as nothing re-sorts the tree level by level: 'season.nfo' sorts before 'season/ep1' as
+    a path but after 'season' as a key."""
+    label = cname + "._traverse :: entry.call"
+    if fact is None or fact.value == HF.UND:
+        ctx.undecided("C03.1", None, "%s: how the traversal is entered could not be extracted" % cname, label)
+        return
+    if fact.value == CF.SPEC_TRAVERSE["entry.call"]:
+        ctx.holds("C03.1", fact.fn, "%s: traversal %s" % (cname, fact.value), label)
+        return
+    if fact.value == CF.FLAT_ENTRY:
+        from .postassembly import deep_resorts
+        ev = deep_resorts(ctx, ("info", "file tree"))
+        if ev:
+            f, node = ev[0]
+            ctx.violated("C03.1", fact.fn, "%s: the traversal is %s, so info.files and the pieces follow full-path order, while `%s` (%s) re-sorts the file tree level by level: "
+                         "the two orders differ as soon as a directory has a sibling whose name continues it with a character below '/' (season/ next to season.nfo)" % (
+                             cname, fact.value, norm(node)[:70], f.qual.split(":")[-1]), label)
+        else:
+            ctx.undecided("C03.1", fact.fn, "%s: the traversal is %s; whether the tree keeps that order until it is written is not decided" % (cname, fact.value), label)
+        return
+    ctx.undecided("C03.1", fact.fn, "%s: the traversal is driven in a way the extractor does not understand: %s" % (cname, fact.value.lstrip("?")), label)
+
+
 def fresh_keywords(ctx, cq):
     """The keyword dictionary that carries the pad switch belongs to the instance (a fresh literal), it is not shared."""
     cls = ctx.prog.cls(cq)
@@ -113,7 +140,8 @@ def run(ctx):
         cname = cq.split(":")[1]
         HF.judge_facts(ctx, "C03.1", cname + "._traverse", EF, {k: CF.SPEC_HYBRID_ENTRIES[k] for k in ("entry", "entry.once", "v1.pieces")}, why="the hybrid layout")
         HF.judge_facts(ctx, "C03.2", cname + "._traverse", EF, {"padding.entry": CF.SPEC_HYBRID_ENTRIES["padding.entry"]}, why="the hybrid layout")
-        HF.judge_facts(ctx, "C03.1", cname + "._traverse", F, {"entry.call": CF.SPEC_TRAVERSE["entry.call"], "dir.order": CF.SPEC_TRAVERSE["dir.order"], "leaf": CF.SPEC_TRAVERSE["leaf"]}, why="the hybrid layout")
+        HF.judge_facts(ctx, "C03.1", cname + "._traverse", F, {"dir.order": CF.SPEC_TRAVERSE["dir.order"], "leaf": CF.SPEC_TRAVERSE["leaf"]}, why="the hybrid layout")
+        entry_order(ctx, cname, F.get("entry.call"))
         padding_switch(ctx, cq)
         fresh_keywords(ctx, cq)
     for hq in ("torrentfile.hasher:HasherHybrid", "torrentfile.hasher:FileHasher"):
@@ -144,7 +172,7 @@ QUICK_CANARIES = True
 CLAIM = {
     "text": "Partial: decides the layout facts that make the v1 and v2 views of a hybrid describe one payload (one entry per leaf in traversal order with the leaf's size, padding entry "
             "directly after its file and marked, zero-extension facts of both hybrid hashers, padding hashed iff listed on every path of assemble, single file hashed alone). "
-            "Equality of the SHA-1 piece string with the reference for all sizes needs the read loops, which are not decided.",
+            "Equality of the SHA-1 piece string with the reference for all sizes needs the read loops, which are not decided. C03.5: after assembly nothing removes, filters, reorders or replaces info/files, info/pieces, info/length; a traversal driven from the flat sorted listing is reported when the tree is re-sorted level by level afterwards.",
     "note": "Not decided: the per-piece SHA-1 values; trailing padding after the last file (the property does not forbid it). Unrecognised shapes are undecided.",
     "technique": "role-based fact extraction (normal forms), CFG path enumeration of assemble with consistent branch decisions, control dependence of the zero-extension",
     "design_ref": "DESIGN.md section 4, C03",
